@@ -95,3 +95,23 @@ Example C15_json_nonvacuous :
                 [(1%positive, 2%positive); (2%positive, 3%positive)] 1%positive 10 [] in
   registry_okb r = true /\ dec_unit r (enc_unit r kmps) = DOk (c_tbl r, 3%nat) /\ dec_unit r (enc_unit r kone) = DOk (c_tbl r, 4%nat).
 Proof. vm_compute. repeat split; reflexivity. Qed.
+
+(* ---- pickle / copy / deepcopy (Model/Codec.v: __new__ on the newargs, then the pickled state) ---- *)
+Theorem C15_pickle_roundtrip : forall r h d, NoDupK (p_tbl r) -> pdump r h = Some d -> pload true r d = (r, h).
+Proof. exact pload_pdump. Qed.
+Print Assumptions C15_pickle_roundtrip.
+
+(* a pickle taken before the object was given a (further) name, loaded afterwards, leaves the names alone *)
+Theorem C15_stale_pickle_keeps_names : forall r h d n, NoDupK (p_tbl r) -> pdump r h = Some d ->
+  pload true (pname r h n) d = (pname r h n, h).
+Proof. exact pload_stale. Qed.
+Print Assumptions C15_stale_pickle_keeps_names.
+
+(* before 36300c5 (no guard in __setstate__) the same history lost the name *)
+Theorem C15_refuted_stale_pickle :
+  let meter := MkU pid {[ 1%positive := 1%Z ]} {[ 2%positive := 1%Z ]} in
+  let r := MkPR [uone; meter] [[1%positive]; []] in
+  exists d, pdump r 1 = Some d /\
+    p_names (fst (pload false (pname r 1 7%positive) d)) = [[1%positive]; []] /\
+    p_names (fst (pload true (pname r 1 7%positive) d)) = [[1%positive]; [7%positive]].
+Proof. eexists. split; [reflexivity|]. vm_compute. split; reflexivity. Qed.
